@@ -8,7 +8,9 @@
      derived  (d) | (d <mt> <cterr> <ct> <loc> <etag_ok> <len_ok> <mod_ok> <ical g|b|x> <vcard g|b|x> <xml>)
               what the parsers outside the model made of the input (computed by the harness with
               the real functions): xml = s | (e <ns> <local> <ann> <kid>...)
-     obs      (o <requests> <outcome>) *)
+     obs      (o <requests> <outcome>)
+   or, for the direct exercise of the variadic Response.DecodeProp:
+     (p <body>) (d <xml>) (o - | ((ok) | (err ...) | (panic) ...))   one outcome per response *)
 open Sx
 open Model_c14
 
@@ -149,4 +151,20 @@ let () =
       let spec = spec_ok meth path s o || not wf in
       verdict ~agree ~spec ~kf
         ~detail:(Printf.sprintf "model=%s must_fail=%b observed=%s(reqs %d)" (show_out (model_out meth path s)) mf (show_out o.o_out) (int_of_n o.o_reqs))
+    | [L [A "p"; _body]; L [A "d"; xml]; L [A "o"; o]] ->
+      (* Response.DecodeProp(&getETag, &getLastModified) on every response of the body *)
+      let b = xml_of xml in
+      let pair_of = function
+        | L [A "ok"] -> COk ()
+        | L [A "panic"] -> CPanic
+        | x -> (match outcome_of x with OErr e -> CErr e | _ -> raise (Parse_error "pair outcome")) in
+      let obs = (match o with A "-" -> None | L l -> Some (List.map pair_of l) | _ -> raise (Parse_error "pairs")) in
+      bump "decodeprop_pair_cases";
+      (match decode_pairs b with
+       | Some l -> note_nontrivial (show (List.hd sx)); bump (Printf.sprintf "pair_responses_%d" (min 5 (List.length l)))
+       | None -> bump "pair_body_not_multistatus");
+      let show_p = function COk () -> "ok" | CErr e -> show_err e | CPanic -> "PANIC" in
+      let show_l = function None -> "-" | Some l -> String.concat ";" (List.map show_p l) in
+      verdict ~agree:(pairs_agree b obs) ~spec:(pairs_spec_ok b obs) ~kf:"-"
+        ~detail:(Printf.sprintf "model=%s observed=%s" (show_l (decode_pairs b)) (show_l obs))
     | _ -> raise (Parse_error "line"))
